@@ -28,6 +28,7 @@ type c08Pub struct {
 	front *Front
 	mu    sync.Mutex
 	ann   []cid.Cid // announced heads, in order
+	failOn func()
 }
 
 type c08Cfg struct {
@@ -39,10 +40,11 @@ type c08Cfg struct {
 	Bursts   int
 	Delay    int
 	Stall    int // per mille of block requests that are held for a moment
+	Fail     int // per mille of first requests for a block that are answered 500 (the sync fails)
 }
 
 func (k c08Cfg) String() string {
-	return fmt.Sprintf("publishers=%d max-async=%d explicit-syncs=%v bursts=%d tap-delay=%d/1000 stall=%d/1000 last-known-baseline=%v explicit-timeouts=%v", k.K, k.MaxAsync, k.Explicit, k.Bursts, k.Delay, k.Stall, k.LastKnown, k.Timeouts)
+	return fmt.Sprintf("publishers=%d max-async=%d explicit-syncs=%v bursts=%d tap-delay=%d/1000 stall=%d/1000 last-known-baseline=%v explicit-timeouts=%v failing-requests=%d/1000", k.K, k.MaxAsync, k.Explicit, k.Bursts, k.Delay, k.Stall, k.LastKnown, k.Timeouts, k.Fail)
 }
 
 func runC08(c *vf.Ctx) {
@@ -69,6 +71,9 @@ func c08Run(c *vf.Ctx, sub string, explicit, lastKnown bool) {
 		}
 		r := c.Rand(sub, i)
 		k := c08Cfg{LastKnown: lastKnown, Timeouts: explicit && r.Intn(2) == 0, K: 1 + r.Intn(4), Explicit: explicit, Bursts: 2 + r.Intn(4), Delay: []int{0, 100, 300, 600}[r.Intn(4)], Stall: []int{0, 100, 300}[r.Intn(3)]}
+		if !explicit && r.Intn(2) == 0 {
+			k.Fail = []int{60, 150, 300}[r.Intn(3)]
+		}
 		switch r.Intn(6) {
 		case 0:
 		case 1:
@@ -116,15 +121,29 @@ func c08One(c *vf.Ctx, sub string, i int, r *rand.Rand, k c08Cfg, ids []Ident) {
 		p.front.Pub.SetRoot(p.chain.Head())
 		stallR := rand.New(rand.NewSource(r.Int63()))
 		var smu sync.Mutex
-		stall := k.Stall
+		stall, fail := k.Stall, k.Fail
+		if !k.LastKnown {
+			fail = 0 // (switched on after the baseline sync)
+		}
+		p.failOn = func() { smu.Lock(); fail = k.Fail; smu.Unlock() }
 		p.front.Plan = func(ev ReqEvent) *Fault {
-			if ev.Rsrc == "head" || stall == 0 {
+			if ev.Rsrc == "head" || (stall == 0 && k.Fail == 0) {
 				return nil
 			}
 			smu.Lock()
+			fail := fail
 			hit := stallR.Intn(1000) < stall
 			d := time.Duration(200+stallR.Intn(3000)) * time.Microsecond
+			bad := ev.Occur == 0 && stallR.Intn(1000) < fail
 			smu.Unlock()
+			if bad {
+				// the sync that asked for this block fails; the next request for it is served
+				f := &Fault{Status: 500, Label: "injected-500"}
+				if hit {
+					f.Gate = closedAfter(d)
+				}
+				return f
+			}
 			if hit {
 				return &Fault{Gate: closedAfter(d), Label: "held"}
 			}
@@ -208,6 +227,7 @@ func c08One(c *vf.Ctx, sub string, i int, r *rand.Rand, k c08Cfg, ids []Ident) {
 	hmu.Unlock()
 	for _, p := range pubs {
 		p.front.ResetLog()
+		p.failOn()
 	}
 	baseTick := c.Tick()
 
@@ -313,7 +333,10 @@ func c08One(c *vf.Ctx, sub string, i int, r *rand.Rand, k c08Cfg, ids []Ident) {
 		// (every received announcement must also have been put into the pending slot: the watcher may be
 		// anywhere between receiving and swapping)
 		if tl.count("watch.recv") == a && tl.count("watch.swap.spawn")+tl.count("watch.swap.replaced") == a &&
-			tl.count("async.enter") == tl.count("async.exit") && tl.count("watch.swap.spawn") == tl.count("async.enter") && open == 0 {
+			tl.count("async.enter") == tl.count("async.exit") && tl.count("watch.swap.spawn") == tl.count("async.enter") && open == 0 &&
+			tl.count("event.emit.begin") == tl.count("event.emit.end") && tl.count("dist.forward") == tl.count("event.emit.end") {
+			// (the last condition: every notification sent has been taken up by the distributor, so the harness's own
+			// listener, cancelled below, has them all queued)
 			quiet = true
 			break
 		}
@@ -379,6 +402,9 @@ func c08One(c *vf.Ctx, sub string, i int, r *rand.Rand, k c08Cfg, ids []Ident) {
 	stopByG := map[int]cid.Cid{}
 	semOpen, semMax := 0, 0
 	inSem := map[int]bool{}
+	inAsync := map[int]bool{}      // goroutines that are announce handlers
+	asyncSyncs, asyncSyncsMax := 0, 0 // announce-triggered syncs between sync.enter and sync.exit
+	asyncSyncG := map[int]bool{}
 	coalesced, spawnWhileRunning := 0, 0
 	running := map[peer.ID]int{}
 	for _, e := range log {
@@ -394,6 +420,13 @@ func c08One(c *vf.Ctx, sub string, i int, r *rand.Rand, k c08Cfg, ids []Ident) {
 				return
 			}
 			iv := &interval{peer: e.Peer, enter: e.T, g: e.G, stopRead: stopByG[e.G], latestAt: e.Aux, head: e.Cid}
+			if inAsync[e.G] {
+				asyncSyncG[e.G] = true
+				asyncSyncs++
+				if asyncSyncs > asyncSyncsMax {
+					asyncSyncsMax = asyncSyncs
+				}
+			}
 			iv.stale = !iv.stopRead.Equals(iv.latestAt)
 			if p := byID[e.Peer]; p != nil && e.Aux.Defined() && p.chain.Pos(e.Cid) >= 0 && p.chain.Pos(e.Cid) < p.chain.Pos(e.Aux) {
 				iv.staleHead = true
@@ -404,6 +437,17 @@ func c08One(c *vf.Ctx, sub string, i int, r *rand.Rand, k c08Cfg, ids []Ident) {
 			if iv := open[e.Peer]; iv != nil {
 				iv.end = e.T
 				open[e.Peer] = nil
+			}
+			if asyncSyncG[e.G] {
+				delete(asyncSyncG, e.G)
+				asyncSyncs--
+			}
+		case "pending.taken":
+			// the pending announcement is taken only when no other sync of the publisher is running: one that is
+			// taken earlier is no longer replaced by a newer announcement arriving during that sync
+			if iv := open[e.Peer]; iv != nil {
+				c.Fail(sub, i, "pending-announcement-taken-while-a-sync-of-the-publisher-is-running", fmt.Sprintf("taken at %d, the sync entered at %d has not exited", e.T, iv.enter), wit())
+				return
 			}
 		case "async.sem":
 			semOpen++
@@ -417,8 +461,10 @@ func c08One(c *vf.Ctx, sub string, i int, r *rand.Rand, k c08Cfg, ids []Ident) {
 				delete(inSem, e.G)
 			}
 			running[e.Peer]--
+			delete(inAsync, e.G)
 		case "async.enter":
 			running[e.Peer]++
+			inAsync[e.G] = true
 		case "watch.swap.replaced":
 			coalesced++
 		case "watch.swap.spawn":
@@ -429,6 +475,9 @@ func c08One(c *vf.Ctx, sub string, i int, r *rand.Rand, k c08Cfg, ids []Ident) {
 	}
 	if k.MaxAsync > 0 && semMax > k.MaxAsync {
 		c.Fail(sub, i, "more-announce-syncs-than-configured-maximum", fmt.Sprintf("%d at once, maximum %d", semMax, k.MaxAsync), wit())
+	}
+	if k.MaxAsync > 0 && asyncSyncsMax > k.MaxAsync {
+		c.Fail(sub, i, "more-announce-syncs-running-than-configured-maximum", fmt.Sprintf("%d announce-triggered syncs were between start and end at once, maximum %d", asyncSyncsMax, k.MaxAsync), wit())
 	}
 	// hooks belong to exactly one sync interval of their publisher
 	for _, h := range hk {
@@ -481,6 +530,18 @@ func c08One(c *vf.Ctx, sub string, i int, r *rand.Rand, k c08Cfg, ids []Ident) {
 			}
 		}
 		last := len(p.chain.Cids) - 1
+		if k.Fail > 0 {
+			// failed syncs report nothing; what must have been reported once is everything up to latest-synced
+			// (whether the remainder is excused by an error notification is decided below)
+			if lp := p.chain.Pos(finalLatest[p.id.ID]); lp >= 0 {
+				for pos := lp + 1; pos <= last; pos++ {
+					if seen[pos] > 0 {
+						c.Fail(sub, i, "advertisement-beyond-latest-synced-reported", fmt.Sprintf("publisher P%d advertisement #%d reported, latest-synced is #%d", x, pos, lp), wit())
+					}
+				}
+				last = lp
+			}
+		}
 		for pos := 1; pos <= last; pos++ {
 			if seen[pos] == 1 {
 				continue
@@ -501,8 +562,8 @@ func c08One(c *vf.Ctx, sub string, i int, r *rand.Rand, k c08Cfg, ids []Ident) {
 		// duplicate requests at the publisher (fault-free run: only a second, concurrent sync can cause them)
 		reqSeen := map[string]int{}
 		for _, q := range BlockRequests(p.front.Log()) {
-			if q == "head" || k.Timeouts {
-				continue // (a request abandoned by an expired context is legitimately repeated later)
+			if q == "head" || k.Timeouts || k.Fail > 0 {
+				continue // (a request abandoned by an expired context, or refused, is legitimately repeated later)
 			}
 			reqSeen[q]++
 			if reqSeen[q] > 1 {
@@ -542,6 +603,19 @@ func c08One(c *vf.Ctx, sub string, i int, r *rand.Rand, k c08Cfg, ids []Ident) {
 	if k.LastKnown {
 		c.Inc("runs_with_last_known_baseline")
 	}
+	if k.Fail > 0 {
+		c.Inc("runs_with_failing_syncs")
+		nerr := 0
+		emu.Lock()
+		for _, ev := range events {
+			if ev.Err != nil {
+				nerr++
+			}
+		}
+		emu.Unlock()
+		c.Add("failed_announce_syncs", int64(nerr))
+	}
+	c.Max("max_announce_syncs_between_start_and_end", int64(asyncSyncsMax))
 	c.Add("coalesced_announcements", int64(coalesced))
 	c.Add("spawn_while_previous_sync_running", int64(spawnWhileRunning))
 	c.Add("syncs_observed", int64(len(syncs)))
